@@ -79,7 +79,9 @@ class Life:
             calls.append(x)
             return payload(x)
         base = self.ld.new(dict(zip(self.keys, range(self.n)))).map(m)
-        ds = base.diskcache(cache_dir=self.dir, reuse=reuse, clear=clear)
+        self.opens = getattr(self, 'opens', 0) + 1
+        ds = base.diskcache(self.dir, reuse, clear) if self.opens % 2 else \
+            base.diskcache(cache_dir=self.dir, reuse=reuse, clear=clear)
         self.handles = [ds]
         self.calls = calls
         self.clear = clear
